@@ -398,7 +398,10 @@ def h_concrete_texts(c0: int, c1: int, shard=None) -> None:
         reject_unless(c0 == 0)
     c0, c1 = realize(c0), realize(c1)
     with concrete():
+        from vf.xh import sweep_should_stop
         for rest in itertools.product(range(k), repeat=max(0, n - 2)):
+            if sweep_should_stop():
+                return
             cs = ([c0, c1] + list(rest))[:n]
             text = "".join(alphabet[c] for c in cs)
             err = concrete_positions_check(text.split("\n"))
